@@ -59,6 +59,7 @@ static void trie_notify(struct trie_node *n, uint32_t event, const char *key,
 			void *old_value, void *value);
 static struct trie_node *trie_new_node(struct trie *t, struct trie_node *parent);
 static void trie_destroy_node(struct trie_node *node);
+static void trie_node_deref(struct trie *t, struct trie_node *node);
 
 /*
  * characters are stored in reverse to make accessing the
@@ -351,6 +352,7 @@ trie_node_release(struct trie *t, struct trie_node *node)
 	int empty = QB_FALSE;
 
 	if (node->key == NULL &&
+	    node->refcount == 0 &&
 	    node->parent != NULL &&
 	    qb_list_empty(node->notifier_head)) {
 		struct trie_node *p = node->parent;
@@ -393,7 +395,9 @@ trie_node_destroy(struct trie *t, struct trie_node *n)
 	n->key = NULL;
 	n->value = NULL;
 
-	trie_node_release(t, n);
+	/* drop the entry's own reference; the node itself stays while an
+	 * iterator is positioned on it */
+	trie_node_deref(t, n);
 }
 
 static void
@@ -433,14 +437,13 @@ trie_node_ref(struct trie *t, struct trie_node *node)
 static void
 trie_node_deref(struct trie *t, struct trie_node *node)
 {
-	if (!trie_node_alive(node)) {
+	if (node->refcount == 0) {
 		return;
 	}
 	node->refcount--;
-	if (node->refcount > 0) {
-		return;
+	if (node->refcount == 0) {
+		trie_node_release(t, node);
 	}
-	trie_node_destroy(t, node);
 }
 
 static void
@@ -548,7 +551,7 @@ trie_rm(struct qb_map *map, const char *key)
 	struct trie *t = (struct trie *)map;
 	struct trie_node *n = trie_lookup(t, key, QB_TRUE);
 	if (n && trie_node_alive(n)) {
-		trie_node_deref(t, n);
+		trie_node_destroy(t, n);
 		t->length--;
 		return QB_TRUE;
 	} else {
